@@ -793,7 +793,11 @@ class _function(object):
         if _isdmatrix(other) and other.size == (1,1):
 
             if other[0] == 0.0: 
+                # constant zero function of length len(self)
                 self._constant = matrix(0.0, (len(self),1))
+                self._linear = _lin()
+                self._cvxterms = []
+                self._ccvterms = []
                 return self
 
             if len(self._constant) != 1 or self._constant[0]:
@@ -1107,9 +1111,10 @@ class _lin(object):
                 elif c.size == (1,len(v)):
                     self._coeff[v] = c[newlg*[0],:] + a
                 elif _isdmatrix(c) and c.size == (1,1):
-                    m = +a
-                    m[::newlg+1] += c[0]
-                    self._coeff[v] = m
+                    # a is square here; add c to its diagonal (a may be 
+                    # sparse, so no in-place update of a slice)
+                    self._coeff[v] = a + spmatrix(c[0], range(newlg),
+                        range(newlg), (newlg, newlg))
                 else:
                     raise TypeError('incompatible dimensions')
                     
@@ -1119,20 +1124,23 @@ class _lin(object):
                 elif c.size == (1,len(v)):
                     self._coeff[v] = c + a
                 elif _isdmatrix(c) and c.size == (1,1):
-                    m = a[lg*[0],:]
-                    m[::lg+1] += c[0]
-                    self._coeff[v] = m
+                    self._coeff[v] = a[lg*[0],:] + spmatrix(c[0], 
+                        range(lg), range(lg), (lg, lg))
                 else:
                     raise TypeError('incompatible dimensions')
 
             elif _isscalar(a) and len(v) > 1 and (lg == 1 or 
                 lg == len(v)):
                 newlg = len(v)
+                if _ismatrix(a): aval = a[0]
+                else: aval = a
                 if c.size == (newlg,len(v)):
-                    self._coeff[v][::newlg+1] = c[::newlg+1] + a
+                    self._coeff[v] = c + spmatrix(aval, range(newlg), 
+                        range(newlg), (newlg, newlg))
                 elif c.size == (1,len(v)):
-                    self._coeff[v] = c[newlg*[0],:]
-                    self._coeff[v][::newlg+1] = c[::newlg+1] + a 
+                    # row i of the new coefficient is c + a*e_i'
+                    self._coeff[v] = c[newlg*[0],:] + spmatrix(aval, 
+                        range(newlg), range(newlg), (newlg, newlg))
                 elif _isscalar(c):
                     self._coeff[v] = c + a
                 else:
@@ -1467,6 +1475,10 @@ class _minmax(object):
                         cnst = _vecmin(cnst,f)
 
                 elif type(f) is variable or type(f) is _function:
+                    if type(f) is _function and not (
+                        (self._ismax and f._isconvex()) or 
+                        (not self._ismax and f._isconcave()) ):
+                        raise TypeError('unsupported argument type')
                     self._flist += [+f]
 
                 else:
@@ -1640,16 +1652,22 @@ def max(*s):
     """
 
     try: return builtins.max(*s)
-    except NotImplementedError:
-        f = _function()
-        try: 
-            f._cvxterms = [_minmax('max',*s)]
-            return f
-        except: 
-            # maybe s[0] is a list or tuple of variables, functions
-            # and constants
+    except NotImplementedError: pass
+    except TypeError:
+        # two constant matrix arguments were compared before a variable
+        # or function argument was reached
+        if not [a for a in s if type(a) in (variable, _function)]: raise
+    f = _function()
+    try: 
+        f._cvxterms = [_minmax('max',*s)]
+        return f
+    except: 
+        # maybe s[0] is a list or tuple of variables, functions
+        # and constants
+        if len(s) == 1 and type(s[0]) in (list, tuple):
             try: return max(*s[0])
             except: raise NotImplementedError
+        raise NotImplementedError
 
 
 
@@ -1679,16 +1697,22 @@ def min(*s):
     """
 
     try: return builtins.min(*s)
-    except NotImplementedError:
-        f = _function()
-        try: 
-            f._ccvterms = [_minmax('min',*s)]
-            return f
-        except:
-            # maybe s[0] is a list or tuple of variables, functions
-            # and constants
+    except NotImplementedError: pass
+    except TypeError:
+        # two constant matrix arguments were compared before a variable
+        # or function argument was reached
+        if not [a for a in s if type(a) in (variable, _function)]: raise
+    f = _function()
+    try: 
+        f._ccvterms = [_minmax('min',*s)]
+        return f
+    except: 
+        # maybe s[0] is a list or tuple of variables, functions
+        # and constants
+        if len(s) == 1 and type(s[0]) in (list, tuple):
             try: return min(*s[0])
             except: raise NotImplementedError
+        raise NotImplementedError
 
 
 
@@ -1757,11 +1781,11 @@ class _sum_minmax(_minmax):
     def value(self):
  
         if self._ismax:
-            return matrix(sum(_vecmax(*[f.value() for f in 
-                self._flist])), tc='d')
+            val = _vecmax(*[f.value() for f in self._flist])
         else:
-            return matrix(sum(_vecmin(*[f.value() for f in 
-                self._flist])), tc='d')
+            val = _vecmin(*[f.value() for f in self._flist])
+        if val is None: return None
+        return matrix(sum(val), tc='d')
 
 
     def __pos__(self):
@@ -3075,13 +3099,13 @@ def dot(x,y):
         return blas.dot(x,y)
 
     elif _isdmatrix(x) and (type(y) is variable or 
-        (type(y) is _function and y._isaffine()) and  
-        x.size == (len(y),1)):
+        (type(y) is _function and y._isaffine())) and \
+        x.size == (len(y),1):
         return x.trans() * y
 
     elif _isdmatrix(y) and (type(x) is variable or 
-        (type(x) is _function and x._isaffine()) and 
-        y.size == (len(x),1)):
+        (type(x) is _function and x._isaffine())) and \
+        y.size == (len(x),1):
         return y.trans() * x
 
     else:
